@@ -668,7 +668,37 @@ class Tensor:
             return t
         if len(shape) == 1:
             return self.flatten()
-        raise Unsupported('general view/reshape %s -> %s' % (cur, shape))
+        return self._general_reshape(shape)
+
+    def _general_reshape(self, shape):
+        """row-major re-indexing (C-contiguous semantics of reshape on the logical element order).
+        Returned as a fresh tensor whose in-place modification is out of reach (alias status unknown)."""
+        cur = self._shape
+        if any(isinstance(s_, int) and s_ == -1 for s_ in shape):
+            raise Unsupported('reshape with -1 in a general reshape')
+        c = Ctx.current
+        tot_a, tot_b = tm.IONE, tm.IONE
+        for s_ in cur:
+            tot_a = tm.mul(tot_a, ti(s_))
+        for s_ in shape:
+            tot_b = tm.mul(tot_b, ti(s_))
+        if c is not None:
+            c.oblige('shape', 'reshape preserves the number of elements', tm.eq(tot_a, tot_b))
+        rd = self.reader()
+
+        def f(idx):
+            flat = tm.IZERO
+            for i_, s_ in zip(idx, shape):
+                flat = tm.add(tm.mul(flat, ti(s_)), i_)
+            out = []
+            for s_ in reversed(cur[1:]):
+                out.append(tm.mod(flat, ti(s_)))
+                flat = tm.idiv(flat, ti(s_))
+            out.append(flat)
+            return rd(tuple(reversed(out)))
+        r = Tensor.fresh(f, shape, self.dtype, self.deps)
+        r._inv = False
+        return r
 
     def flip(self, *dims):
         if len(dims) == 1 and isinstance(dims[0], (tuple, list)):
